@@ -95,7 +95,7 @@ def nontrivial(case):
 def run(tier, seed):
     t0 = time.time()
     rng = random.Random(seed)
-    obligations = C.proof_obligations("C15", MODULE, THEOREMS)
+    obligations = C.proof_obligations("C15", MODULE, THEOREMS) + C.inventory_obligation()
     cases = [gen_case(rng) for _ in range(160 if tier == "quick" else 900)]
     impl, model = D.both(CRATE, cases)
     bad = [i for i, c in enumerate(cases) if proj_kinds(c, impl[i]) != proj_kinds(c, model[i])]
